@@ -256,7 +256,28 @@ func runC06(c *Ctx, body json.RawMessage) *Verdict {
 	}
 	fl := d.Files[out]
 	if fl == nil {
+		// the writer may build the index under another name and rename it into place: follow
+		// the file that ended up at the output path
+		for _, p := range d.Order {
+			if ws := d.Files[p].Writes; len(ws) > 0 && ws[len(ws)-1].Path == out {
+				fl = d.Files[p]
+			}
+		}
+	}
+	if fl == nil {
+		if _, err := os.Lstat(out); err == nil {
+			// written without going through bbolt.Open of the output path at all (e.g. copied or
+			// renamed after the last write): in-process images cannot be synthesised; the
+			// process tier (SIGKILL) still applies to such a tree
+			v.Count("output_not_traced", 1)
+			return v
+		}
 		return v.Harness("output file was not opened through the disk proxy")
+	}
+	// atPath: while the file does not (yet) carry the output's name, the output path is absent
+	renamed := fl.Path != out
+	if renamed {
+		v.Count("probe_output_renamed_into_place", 1)
 	}
 	ev := fl.Events()
 	nsync := 0
@@ -275,19 +296,37 @@ func runC06(c *Ctx, body json.RawMessage) *Verdict {
 	v.Count("writes_logged", int64(len(fl.Writes)))
 	allApplied := func(w *simrt.WriteRec) (simrt.Fate, uint64) { return simrt.Applied, 0 }
 
+	// atPath: while the file does not (yet) carry the output's name, the output path is absent
+	atPath := func(k int) bool {
+		if !renamed {
+			return true
+		}
+		for i := k; i >= 0 && i < len(ev); i-- {
+			if !ev[i].Sync {
+				return ev[i].Write.Path == out
+			}
+		}
+		return false
+	}
 	var images []imageSpec
 	// during bbolt.Open's own initialisation
-	if fl.Fresh {
+	if fl.Fresh && !renamed {
 		// (a torn 4-page initialisation write is a power-failure image that only exercises
 		// bbolt's own Open — trusted, and it dies with SIGBUS on a short file — so it is not
 		// generated; a process kill cannot tear that single write)
 		images = append(images, imageSpec{name: "created-but-empty", data: []byte{}})
 	}
 	// exhaustive: every commit boundary (k=-1: initialised, nothing committed)
-	images = append(images, imageSpec{name: "initialised, nothing committed", data: fl.Image(ev, -1, allApplied)})
+	if !renamed {
+		images = append(images, imageSpec{name: "initialised, nothing committed", data: fl.Image(ev, -1, allApplied)})
+	}
 	lastEvent := len(ev) - 1
 	for i, e := range ev {
 		if !e.Sync {
+			continue
+		}
+		if !atPath(i) {
+			v.Count("outcome_absent", 1)
 			continue
 		}
 		afterMeta := i > 0 && !ev[i-1].Sync && ev[i-1].Write.Meta
@@ -307,6 +346,10 @@ func runC06(c *Ctx, body json.RawMessage) *Verdict {
 		k := sr.Intn(len(ev))
 		mode := sr.Intn(4)
 		seed := sr.U64()
+		if !atPath(k) {
+			v.Count("outcome_absent", 1)
+			continue
+		}
 		var lost, torn int64
 		img := fl.Image(ev, k, func(w *simrt.WriteRec) (simrt.Fate, uint64) {
 			h := simrt.Hash3(seed, uint64(w.Idx), 5) % 10
